@@ -249,7 +249,7 @@ func (data stageData) outputSystemSet() error {
 	for _, item := range data.systemSet.Atoms {
 		cursor.Println(item.String())
 	}
-	return nil
+	return cursor.Close()
 }
 
 
